@@ -104,14 +104,22 @@ func genOp(valid bool, ttl int) *rapid.Generator[Op] {
 
 func genFiniteCase(t *rapid.T) Case {
 	c := Case{Kind: "finite", EmptyIDSerial: -1}
-	c.N = rapid.OneOf(rapid.IntRange(2, 3), rapid.IntRange(2, 9)).Draw(t, "n")
+	switch k := stats.Pct(t, "nkind"); {
+	case k < 25:
+		c.N = 2 + stats.Pick(t, 2, "n")
+	case k < 85:
+		c.N = 2 + stats.Pick(t, 8, "n")
+	default:
+		// beyond small rings: capacities around and between powers of two
+		c.N = stats.From(t, []int{15, 16, 17, 20, 31, 32, 33, 48, 63, 65, 100}, "nbig")
+	}
 	c.Auto = rapid.Bool().Draw(t, "auto")
 	if !c.Auto && rapid.IntRange(0, 3).Draw(t, "useEmptyID") == 0 {
 		c.EmptyIDSerial = rapid.IntRange(0, 2*c.N).Draw(t, "emptyid")
 	}
-	c.Prefill = rapid.IntRange(0, 3*c.N).Draw(t, "prefill")
-	minOps := rapid.IntRange(1, 3*c.N).Draw(t, "minops")
-	c.Ops = rapid.SliceOfN(genOp(false, 0), minOps, 6*c.N+10).Draw(t, "ops")
+	c.Prefill = stats.Pick(t, 3*c.N+1, "prefill")
+	minOps := 1 + stats.Pick(t, min(3*c.N, 30), "minops")
+	c.Ops = rapid.SliceOfN(genOp(false, 0), minOps, min(6*c.N+10, 70)).Draw(t, "ops")
 	return c
 }
 
@@ -182,7 +190,12 @@ func (m *model) presented(op Op) (id sse.EventID, kind string, pos int) {
 	vis, invis := m.visibleIdx()
 	never := func() (sse.EventID, string, int) {
 		if m.c.Auto {
-			switch op.K % 3 {
+			switch op.K % 5 {
+			case 3:
+				// huge never-issued numbers (beyond int64, at the uint64 limit)
+				return sse.ID([]string{"18446744073709551615", "9223372036854775808", "9223372036854775807", "18446744073709551614"}[op.K/5%4]), "never", -1
+			case 4:
+				return sse.ID(strconv.FormatUint(uint64(m.nextAuto)+1<<63, 10)), "never", -1
 			case 0:
 				return sse.ID(strconv.Itoa(m.nextAuto + op.K)), "never", -1
 			case 1:
